@@ -300,7 +300,7 @@ func runPath(c PathCase) kit.Result {
 var pathSpec = kit.Spec[PathCase]{
 	Prop: "C28", Name: "path",
 	Rule:  "string assembled from path fragments (namespaces incl. case variants and unknown ones, CIDs v0/v1 in base32/36/58/16/64url and upper-cased, peer IDs / IPNS names, DNSLink names, '.', '..', repeated and trailing slashes, unicode, control bytes) or fully random; NewPath accepted => printed form re-parses to the same String/Namespace/Segments/root CID, has no dot segment, keeps the trailing slash; URI cases: scheme (any ASCII case) ':' ['//'] rest compared with /ns/rest; non-trivial = input had a dot segment or a repeated slash and was accepted",
-	Quick: 12000, Thorough: 100000,
+	Quick: 12000, Thorough: 60000,
 	Gen: genPath, Run: runPath,
 }
 
@@ -446,7 +446,7 @@ func runName(c NameCase) kit.Result {
 var nameSpec = kit.Spec[NameCase]{
 	Prop: "C28", Name: "name",
 	Rule:  "peer ID of a generated key (Ed25519/secp256k1 from a drawn seed, RSA/ECDSA from the pool) or of a drawn 32-byte digest in the sha2-256 (RSA/ECDSA-shaped) or identity (Ed25519-shaped) multihash form; the name must round-trip through String (base36, /ipns/-prefixed, base32 CID, legacy base58), Cid, RoutingKey, Peer, JSON and AsPath; every case is non-trivial",
-	Quick: 3000, Thorough: 40000,
+	Quick: 3000, Thorough: 20000,
 	Gen: genName, Run: runName,
 }
 
